@@ -23,7 +23,7 @@ fn must_resolve(w: OpWhat) -> bool {
 /// (a) replies belong to the caller's own message and its single invocation
 pub fn own_reply(v: &View, vd: &mut Verdict, prop: &str) {
     let mut inv_used: BTreeMap<u32, (usize, usize)> = BTreeMap::new();
-    for o in v.client_ops().filter(|o| o.what == OpWhat::Call) {
+    for o in v.client_ops().filter(|o| matches!(o.what, OpWhat::Call | OpWhat::CallAbandoned)) {
         let Some(r) = o.reply() else { continue };
         let id = o.msg.unwrap();
         if r.msg != MsgRef::Client(id) {
@@ -149,7 +149,10 @@ pub fn check(v: &View, vd: &mut Verdict) {
         vd.fail("C02/panic", format!("task {tag} panicked: {msg}"));
     }
     // classes
-    let calls: Vec<&OpRec> = v.client_ops().filter(|o| o.what == OpWhat::Call).collect();
+    let calls: Vec<&OpRec> = v.client_ops().filter(|o| matches!(o.what, OpWhat::Call | OpWhat::CallAbandoned)).collect();
+    if v.client_ops().any(|o| matches!(o.res, Some(OpRes::Abandoned))) {
+        vd.class("call_future_dropped");
+    }
     let concurrent_calls = calls.iter().any(|a| {
         calls.iter().any(|b| (a.client, a.op) != (b.client, b.op) && a.actor == b.actor && a.begin < b.begin && b.begin < a.end_or_max())
     });
